@@ -85,6 +85,20 @@ func runRef(c *core.Ctx, ck *Check, specs []*refSpec) {
 				p.Add(s, seen)
 			}
 		}
+		if j.k == 3 {
+			// every committed 64-bit FNV / CRC collision pair (gen/collide64.json) side by side
+			for _, cp := range gen.CommittedCollisions() {
+				for _, s := range []string{cp.A, cp.B} {
+					if sp.eco == "golang" {
+						s = "v" + s
+					}
+					if sp.domain(s) {
+						p.Add(s, seen)
+					}
+				}
+			}
+			w.Count("committed_collision_pools", 1)
+		}
 		if j.k == 2 {
 			// carry sweep: 1.<2^e-1 | 2^e | 2^e+1>.5 for e = 8..31 next to 2.0.3 and 1.0.7 (a carry out of a packed field,
 			// or a truncated one, must not outweigh the earlier component)
